@@ -984,3 +984,9 @@ func init() {
 	mutant("idle-timer-cuts-requests-in-flight", "stream-birth-and-timeout", "serverConn.go", "			if len(strms) != 0 {\n				sc.maxIdleTimer.Reset(sc.maxIdleTime)\n\n				continue\n			}\n\n			sc.writeGoAway(0, NoError, \"connection has been idle for a long time\")", "			sc.writeGoAway(0, NoError, \"connection has been idle for a long time\")")
 	mutant("priority-self-dependency-ends-the-connection", "stream-offences-stay-on-the-stream", "serverConn.go", "			return NewResetStreamError(ProtocolError, \"stream that depends on itself\")", "			return NewGoAwayError(ProtocolError, \"stream that depends on itself\")")
 }
+
+func init() {
+	mutant("block-start-forgets-it-is-the-trailers", "client-block-state", "conn.go", "		hb.final = false\n		hb.interim = false\n", "		hb.final = false\n		hb.interim = false\n		hb.trailers = false\n")
+	mutant("write-loop-leaves-with-an-unanswered-request", "client-stuck-writes-bounded", "conn.go", "			err := c.flushOut()\n			if err == nil {\n				err = c.writeRequest(ctx)\n			}\n", "			if err := c.flushOut(); err != nil {\n				return WriteError{err}\n			}\n\n			err := c.writeRequest(ctx)\n")
+	mutant("settings-release-does-not-end-the-connection", "server-loop-shape", "serverConn.go", "					sc.flushStreams(strms, closeStream)\n				}\n\n				// The credit may have let the last response a GOAWAY was\n				// waiting for go out.\n				if isClosing() && canCloseAfterGoAway() {\n					break loop\n				}\n", "					sc.flushStreams(strms, closeStream)\n\n					if isClosing() && canCloseAfterGoAway() {\n						break loop\n					}\n				}\n")
+}
